@@ -59,6 +59,25 @@ theorem reach_partial_vars (ht : TblOK I t) (d : DeepEx α) (hd : Reachable I C 
   have id := reach_inv I C t lm ht d hd
   exact C09.partial_vars I C t d d' id.namedOk id.nodup id.sorted hr id.scopedOk i fuel hp
 
+/-- flagged operators of the table are associative (`TblOK.assoc`), in particular those named like
+    a comparison, `if` or `else` (`C05.BopAssoc`) -/
+theorem bopAssoc_of_flagged (h : C01.FlaggedAssoc I t) : C05.BopAssoc I t := by
+  intro n _ o ho hc
+  unfold findBinOp at ho
+  cases hf : findOp t (String.toList n) with
+  | none => rw [hf] at ho; cases ho
+  | some i =>
+    rw [hf] at ho
+    simp only [] at ho
+    unfold tblBin at ho
+    cases hb : (t[i]?.bind (·.bin)) with
+    | none => rw [hb] at ho; cases ho
+    | some bb =>
+      rw [hb] at ho
+      simp only [Option.map] at ho
+      cases ho
+      exact h i bb hb hc
+
 /-- C05: the derivative of a reachable expression evaluates to the dual-number derivative -/
 theorem reach_partial_sound [DecidableEq α] (ht : TblOK I t) (A : C10.Arith I C t) (L : C05.Laws (dArith I C t))
     (hnames : (t.map (·.repr)).Nodup)
@@ -72,7 +91,7 @@ theorem reach_partial_sound [DecidableEq α] (ht : TblOK I t) (A : C10.Arith I C
       d'.evalRelaxed I (d'.vars.map ρ) = .ok w.der := by
   have id := reach_inv I C t lm ht d hd
   obtain ⟨h1, -, -, -, h5, h6⟩ :=
-    C05.partial_sound I C t A L hnames hfn d id.namedOk id.nodup id.sorted id.assoc id.foldedOk
+    C05.partial_sound I C t A L hnames hfn (bopAssoc_of_flagged I t ht.assoc) d id.namedOk id.nodup id.sorted id.assoc id.foldedOk
       hr id.scopedOk i x hi ρ fuel d' hp w hw hreg
   exact ⟨h1, h5, h6⟩
 
